@@ -2,7 +2,7 @@
    rejected.  Only statements, each closed by [exact <lemma>] and followed by Print Assumptions. *)
 From Coq Require Import String.
 From Coq Require Import List Arith Ascii NArith ZArith QArith Bool Lia.
-From AIT Require Import C18.Model C18.Spec C18.Proofs C18.ProofsSafe C18.ProofsSem C18.ProofsPrint C18.ProofsPrint2 C18.ProofsReject C18.ProofsCheck.
+From AIT Require Import C18.Model C18.Spec C18.Proofs C18.ProofsSafe C18.ProofsSem C18.ProofsPrint C18.ProofsPrint2 C18.ProofsReject C18.ProofsCheck C18.ProofsReuse C18.ProofsForms C18.ProofsLex3 C18.ProofsWhole.
 Import ListNotations.
 Local Close Scope Q_scope.
 Local Close Scope string_scope.
@@ -48,24 +48,74 @@ Theorem size_overflow_refuted :
 Proof. exact size_overflow_refuted_lemma. Qed.
 Print Assumptions size_overflow_refuted.
 
-(* parse_print at the token/line level.  Full statement (character level, DESIGN.md 4 C18):
-     forall prog fmt, wf prog -> parse (print fmt prog) = Ok (denote prog)
-   with [print fmt prog : text].  Proved here: for EVERY list of lexed lines that renders the program
-   (any spacing, any name-vs-number choice, any spelling of the numbers, extra ignored tokens, ignored
-   lines, declarations anywhere in the file) the repaired parser returns exactly the denotation:
-   line dispatch, `*` / name / number index expansion, later-overrides-earlier, matrix = rows =
-   entries.  Missing for the full statement: the proof that the character-level lexer [lex_text]
-   maps a printed text to such lines (the driver checks [rendersb prog (lex_text text)] on every
-   generated well-formed case instead). *)
-Theorem parse_print_tokens_partial : forall pomdp prog ls,
+(* parse_print.  [print fmt prog] is the character text obtained by printing statement i with the
+   format [fmt i] (spacing before/after every colon, between tokens, at both ends of every line, the
+   word that starts a T/O/R line, the spelling of every number, extra ignored tokens); [fmts_ok] says
+   the format is admissible (tokens are non-empty and contain no white space or colon, a spelled number
+   reads back as the number, a number is not shadowed by a declared name, value tokens and ignored lines
+   do not start like a keyword).  For every well-formed program and every admissible format the repaired
+   parser, run on the CHARACTERS, returns exactly the denotation. *)
+Theorem parse_print : forall pomdp prog fmt,
+  wf pomdp prog -> fmts_ok (hdr_of prog) fmt 0 prog ->
+  parse_text true pomdp (print fmt prog) = Ok (denote pomdp prog).
+Proof. exact parse_print_full_lemma. Qed.
+Print Assumptions parse_print.
+
+(* the lexer lemma behind it: lexing the printed text gives lines that render the program *)
+Theorem print_renders : forall fmt prog,
+  fmts_ok (hdr_of prog) fmt 0 prog -> renders prog (lex_text (print fmt prog)).
+Proof. exact print_renders_lemma. Qed.
+Print Assumptions print_renders.
+
+(* The relational form is more general than any one printer: EVERY list of lexed lines that renders
+   the program (declarations anywhere, any interleaving of ignored lines, any spelling) is parsed to
+   the denotation: line dispatch, `*` / name / number expansion, later-overrides-earlier. *)
+Theorem parse_print_lines : forall pomdp prog ls,
   wf pomdp prog -> renders prog ls -> parse_lines true pomdp ls = Ok (denote pomdp prog).
 Proof. exact parse_print_lemma. Qed.
-Print Assumptions parse_print_tokens_partial.
+Print Assumptions parse_print_lines.
 
-Theorem parse_print_text_tokens_partial : forall pomdp prog text,
+Theorem parse_print_text : forall pomdp prog text,
   wf pomdp prog -> renders prog (lex_text text) -> parse_text true pomdp text = Ok (denote pomdp prog).
 Proof. exact parse_print_text_lemma. Qed.
-Print Assumptions parse_print_text_tokens_partial.
+Print Assumptions parse_print_text.
+
+(* hypotheses of parse_print on a printed text with irregular spacing, a name, a "+0" / "01" spelling,
+   an ignored token and a next-line vector:
+      " states: 2" / " actions: go" / " T: go : +0  : * 0.5 junk" / "Trans:*:01  " / " 0.25  .75  "      *)
+Definition ex_s (x : string) : str := list_ascii_of_string x.
+Definition ex_fA : sfmt :=
+  mkSfmt (fun _ => 1) (fun _ => 0) (fun k => (k, 1)) (fun _ c => c) (ex_s "T")
+         (fun k => match k with 0 => ex_s "2" | _ => ex_s "+0" end) (fun _ _ => ex_s "0.5") (ex_s "reward") [ex_s "junk"].
+Definition ex_fB : sfmt :=
+  mkSfmt (fun k => k) (fun _ => 2) (fun _ => (0, 0)) (fun _ _ => 1) (ex_s "Trans") (fun _ => ex_s "01")
+         (fun _ c => match c with 0 => ex_s "0.25" | _ => ex_s ".75" end) (ex_s "x") [].
+Definition ex_fmt (i : nat) : sfmt := match i with 3 => ex_fB | _ => ex_fA end.
+Definition ex_prog : list stmt :=
+  [SStates (DNum 2); SActions (DNames [ex_s "go"]); SEntry TT (IName (ex_s "go")) (INum 0) IStar (VQ (1 # 2)%Q);
+   SRowNext TT IStar (INum 1) [VQ (1 # 4)%Q; VQ (3 # 4)%Q]].
+Ltac cl := split; [discriminate| reflexivity].
+Ltac fcl := repeat (constructor; [cl|]); constructor.
+Example ex_parse_print_full :
+  wf false ex_prog /\ fmts_ok (hdr_of ex_prog) ex_fmt 0 ex_prog /\
+  print ex_fmt ex_prog = txt [" states: 2"; " actions: go"; " T: go : +0  : * 0.5 junk"; "Trans:*:01  "; " 0.25  .75  "]%string.
+Proof.
+  split; [| split].
+  - apply wfb_sound_lemma. vm_compute. reflexivity.
+  - change (hdr_of ex_prog) with (mkHdr 2 1 0 [] [ex_s "go"] [] (VQ 1%Q)).
+    cbn [fmts_ok ex_prog]. split; [| split; [| split; [| split; [| exact I]]]].
+    + split; [fcl| split; [cl| reflexivity]].
+    + split; [fcl| split; [discriminate| split; [fcl| intros t E n; inversion E; subst; vm_compute; discriminate]]].
+    + split; [fcl|]. split; [eexists; split; reflexivity|]. split; [cl|].
+      split; [split; [cl| split; [reflexivity| split; [discriminate| intros []]]]|].
+      split; [exact I|]. split; [cl| split; vm_compute; reflexivity].
+    + split; [fcl|]. split; [eexists; split; reflexivity|]. split; [exact I|].
+      split; [split; [cl| split; [reflexivity| split; [discriminate| intros []]]]|].
+      split; [discriminate|].
+      intros c v E; destruct c as [|[|c]]; cbn in E; [| | destruct c; discriminate]; inversion E; subst;
+        (split; [cl| split; vm_compute; reflexivity]).
+  - vm_compute. reflexivity.
+Qed.
 
 (* the hypotheses of parse_print are satisfiable: "states: 2 / actions: 1 / T: 0 : * : 1 0.5 / T: 0 : 0 0.25 0.75",
    lexed from characters, renders a well-formed program whose second statement overrides the first *)
@@ -165,3 +215,126 @@ Theorem oversize_rejected : forall pomdp ls p body,
   parse_lines true pomdp ls = Throw E_too_large.
 Proof. exact oversize_rejected_lemma. Qed.
 Print Assumptions oversize_rejected.
+
+(* forms_equivalent: inside any program, a row written on the next line, on the same line, or as single
+   entries, and a matrix written as a matrix or as rows, denote the same model (hence, by parse_print,
+   the parser returns the same tables for their printings). *)
+Theorem forms_equivalent : forall pomdp before after t a s vs rows,
+  denote pomdp (before ++ [SRowNext t a s vs] ++ after) = denote pomdp (before ++ [SRowIn t a s vs] ++ after) /\
+  denote pomdp (before ++ entries_of_row t a s vs ++ after) = denote pomdp (before ++ [SRowIn t a s vs] ++ after) /\
+  denote pomdp (before ++ rows_of_mat t a rows ++ after) = denote pomdp (before ++ [SMat t a rows] ++ after).
+Proof. exact forms_equivalent_lemma. Qed.
+Print Assumptions forms_equivalent.
+
+Theorem forms_equivalent_parser : forall pomdp p1 p2 f1 f2,
+  wf pomdp p1 -> wf pomdp p2 -> fmts_ok (hdr_of p1) f1 0 p1 -> fmts_ok (hdr_of p2) f2 0 p2 ->
+  denote pomdp p1 = denote pomdp p2 ->
+  parse_text true pomdp (print f1 p1) = parse_text true pomdp (print f2 p2).
+Proof.
+  intros pomdp p1 p2 f1 f2 W1 W2 F1 F2 E.
+  rewrite (parse_print_full_lemma pomdp p1 f1 W1 F1), (parse_print_full_lemma pomdp p2 f2 W2 F2), E. reflexivity.
+Qed.
+Print Assumptions forms_equivalent_parser.
+
+Example ex_forms :   (* a 2x2 matrix for action 0 = two rows = four entries *)
+  let m := [[VQ 1%Q; VQ 0%Q]; [VQ (1 # 2)%Q; VQ (1 # 2)%Q]] in
+  rows_of_mat TT (INum 0) m = [SRowIn TT (INum 0) (INum 0) [VQ 1%Q; VQ 0%Q]; SRowIn TT (INum 0) (INum 1) [VQ (1 # 2)%Q; VQ (1 # 2)%Q]] /\
+  entries_of_row TT (INum 0) (INum 1) [VQ (1 # 2)%Q; VQ (1 # 2)%Q]
+    = [SEntry TT (INum 0) (INum 1) (INum 0) (VQ (1 # 2)%Q); SEntry TT (INum 0) (INum 1) (INum 1) (VQ (1 # 2)%Q)].
+Proof. split; reflexivity. Qed.
+
+(* One CassandraParser object may be used for several files: whatever id maps an earlier call left in
+   the object (it returned, or was aborted by an exception anywhere), the next call answers as a
+   fresh parser does. *)
+Theorem reuse_independent : forall fixed pomdp st ls,
+  parse_lines_st fixed pomdp st ls = parse_lines fixed pomdp ls.
+Proof. exact reuse_independent_lemma. Qed.
+Print Assumptions reuse_independent.
+
+Theorem reuse_two_files : forall fixed pomdp2 st0 text1 text2,
+  parse_text_st fixed pomdp2 (state_after st0 (lex_text text1)) text2 = parse_text fixed pomdp2 text2.
+Proof. exact reuse_two_files_lemma. Qed.
+Print Assumptions reuse_two_files.
+
+Example ex_reuse :   (* file 1 leaves names behind; file 2 declares by number and uses the stale name "b": rejected either way *)
+  let st := state_after (mkPstate [] [] []) (lex_text (txt ["states: a b"; "actions: 1"]%string)) in
+  stS st <> [] /\
+  parse_text_st true false st (txt ["states: 2"; "actions: 1"; "T: 0 : b : 0 1"]%string) = Throw E_stoul.
+Proof. split; [vm_compute; discriminate| vm_compute; reflexivity]. Qed.
+
+(* ---------------------------------------------------------------- the loader: parser + Model constructor
+   load_model = MDP::parseCassandra / POMDP::parseCassandra: the tuples returned by the parser go through
+   setDiscount and isProbability (every row of T, and of W for a POMDP). *)
+Theorem isProbability_iff : forall r, isProbability1 r = true <-> row_dist r.
+Proof. exact isProbability1_iff. Qed.
+Print Assumptions isProbability_iff.
+
+(* a well-formed text of a valid model is loaded as exactly that model *)
+Theorem load_print : forall pomdp prog ls,
+  wf pomdp prog -> renders prog ls -> model_ok pomdp (denote pomdp prog) ->
+  load_lines true pomdp ls = Ok (denote pomdp prog).
+Proof. exact load_print_lemma. Qed.
+Print Assumptions load_print.
+
+(* incomplete_rejected, whole file: a text that lacks a size declaration, or has - after well-formed
+   statements - a statement with an unknown name, an index at or beyond the bound, a wrong element
+   count or a wrong number of colons, or that is well-formed but defines tables that are not
+   probability distributions (or a discount outside (0,1]), is rejected with an exception. *)
+Theorem incomplete_rejected : forall pomdp ls,
+  incomplete pomdp ls -> exists e, load_lines true pomdp ls = Throw e.
+Proof. exact incomplete_rejected_lemma. Qed.
+Print Assumptions incomplete_rejected.
+
+Theorem incomplete_rejected_text : forall pomdp text,
+  incomplete pomdp (lex_text text) -> exists e, load_model true pomdp text = Throw e.
+Proof. exact incomplete_rejected_text_lemma. Qed.
+Print Assumptions incomplete_rejected_text.
+
+(* the parser alone already rejects the first two kinds *)
+Theorem defect_rejected : forall pomdp pre_prog post_prog lss_pre lss_post bad,
+  let H := hdr_of (pre_prog ++ post_prog) in
+  wf pomdp (pre_prog ++ post_prog) ->
+  Forall2 (renders_stmt H) pre_prog lss_pre -> Forall2 (renders_stmt H) post_prog lss_post ->
+  defect pomdp H bad -> Forall nonpre bad ->
+  exists e, parse_lines true pomdp (concat lss_pre ++ bad ++ concat lss_post) = Throw e.
+Proof. exact defect_rejected_lemma. Qed.
+Print Assumptions defect_rejected.
+
+Theorem missing_declaration_rejected : forall pomdp prog lss,
+  Forall2 (renders_stmt (hdr_of prog)) prog lss ->
+  (hS (hdr_of prog) = 0 \/ hA (hdr_of prog) = 0 \/ (pomdp = true /\ hO (hdr_of prog) = 0)) ->
+  parse_lines true pomdp (concat lss) = Throw E_incomplete.
+Proof. exact missing_declaration_lemma. Qed.
+Print Assumptions missing_declaration_rejected.
+
+(* an unknown name after two declarations: "states: 2" / "actions: 1" / "T: 0 : nowhere : 0 1" *)
+Example ex_incomplete_defect :
+  incomplete false (lex_text (txt ["states: 2"; "actions: 1"; "T: 0 : nowhere : 0 1"]%string)).
+Proof.
+  set (ls := lex_text _).
+  apply (Inc_defect false ls [SStates (DNum 2); SActions (DNum 1)] []
+           [[nth 0 ls (mkLine KOther 0 [] None [] [])]; [nth 1 ls (mkLine KOther 0 [] None [] [])]] []
+           [nth 2 ls (mkLine KOther 0 [] None [] [])]).
+  - apply wfb_sound_lemma. vm_compute. reflexivity.
+  - cbn [app]. change (hdr_of _) with (mkHdr 2 1 0 [] [] [] (VQ 1%Q)).
+    constructor; [| constructor; [| constructor]].
+    + eexists. split; [reflexivity|]. split; [reflexivity|]. split; [vm_compute; discriminate|]. eexists. split; vm_compute; reflexivity.
+    + eexists. split; [reflexivity|]. split; [reflexivity|]. split; [vm_compute; discriminate|]. eexists. split; vm_compute; reflexivity.
+  - constructor.
+  - cbn [app]. change (hdr_of _) with (mkHdr 2 1 0 [] [] [] (VQ 1%Q)).
+    apply (D_index false _ _ TT 2 (list_ascii_of_string "nowhere") []); try (vm_compute; reflexivity); try (vm_compute; lia).
+    split; [vm_compute; discriminate|]. split; [intros []|]. left. vm_compute. reflexivity.
+  - constructor; [vm_compute; exact I| constructor].
+  - vm_compute. reflexivity.
+Qed.
+
+(* a row that is not a distribution: "T: 0 : 0 0.5 0.25" *)
+Example ex_incomplete_invalid :
+  incomplete false (lex_text (txt ["states: 2"; "actions: 1"; "T: 0 : 0 0.5 0.25"; "T: 0 : 1 0 1"]%string)).
+Proof.
+  apply (Inc_invalid false _ [SStates (DNum 2); SActions (DNum 1); SRowIn TT (INum 0) (INum 0) [VQ (1 # 2)%Q; VQ (1 # 4)%Q];
+                              SRowIn TT (INum 0) (INum 1) [VQ 0%Q; VQ 1%Q]]).
+  - apply wfb_sound_lemma. vm_compute. reflexivity.
+  - apply rendersb_sound_lemma. vm_compute. reflexivity.
+  - intros Hok. apply validate_ok in Hok. vm_compute in Hok. discriminate.
+Qed.
